@@ -88,3 +88,15 @@ func VerifC09BucketLoc(d *DiskBucketStorage, shard int, id int64) (name string, 
 	}
 	return b.file.name, b.pos, b.size, true
 }
+
+// VerifC09Waiting lists the tail files that were stat-ed at start-up and not yet opened by the tail reader.
+func VerifC09Waiting(d *DiskBucketStorage, shard int) []string {
+	s := d.shards[shard]
+	s.mu.Lock()
+	defer s.mu.Unlock()
+	var out []string
+	for _, w := range s.waitingFilesTail {
+		out = append(out, w.name)
+	}
+	return out
+}
